@@ -286,7 +286,7 @@ def ttns_from_tensors(basis_tree, tensors, qns, coeff=1.0):
 
 
 # ------------------------------------------------------------------------------- generators
-def gen_spec(rng, quick=True, max_dim=160, family=None, qn_size=None):
+def gen_spec(rng, quick=True, max_dim=160, family=None, qn_size=None, kinds=None):
     """random rooted tree + basis sets + qn-conserving real Hamiltonian"""
     if family is None:
         family = rng.choice(["random", "random", "linear", "star", "mctdh"])
@@ -296,7 +296,7 @@ def gen_spec(rng, quick=True, max_dim=160, family=None, qn_size=None):
         nsets = int(rng.integers(2, 6 if quick else 7))
         basis = []
         for i in range(nsets):
-            kind = str(rng.choice(["spin", "spin", "elec", "sho", "me", "spin0"]))
+            kind = str(rng.choice(kinds if kinds else ["spin", "spin", "elec", "sho", "me", "spin0"]))
             if kind == "spin0":
                 basis.append(dict(kind="spin", dof=f"s{i}", nbas=2, sigmaqn=[[0] * qn_size] * 2))
             elif kind in ("spin", "elec"):
@@ -383,8 +383,9 @@ def _raise_lower(b, qn_size):
     return []
 
 
-def gen_terms(rng, spec, nonint=False, scale=1.0):
-    """real symmetric qn-conserving Hamiltonian. nonint=True: only terms inside one tree node"""
+def gen_terms(rng, spec, nonint=False, scale=1.0, cluster_of=None):
+    """real symmetric qn-conserving Hamiltonian. nonint=True: only terms inside one cluster of tree
+    nodes (cluster_of: node index -> cluster id; default every node its own cluster)"""
     qs = spec["qn_size"]
     z = [0] * qs
     basis = spec["basis"]
@@ -448,9 +449,11 @@ def gen_terms(rng, spec, nonint=False, scale=1.0):
                                               qn=[qi, [-x for x in qi]]))
     pairs = [(i, j) for i in range(n) for j in range(i + 1, n)]
     if nonint:
-        pairs = [(i, j) for (i, j) in pairs if node_of[i] == node_of[j]]
+        if cluster_of is None:
+            cluster_of = {i: i for i in range(len(spec["nodes"]))}
+        pairs = [(i, j) for (i, j) in pairs if cluster_of[node_of[i]] == cluster_of[node_of[j]]]
     rng.shuffle(pairs)
-    npair = len(pairs) if nonint else int(rng.integers(1, max(2, min(len(pairs), 6)) + 1))
+    npair = min(len(pairs), 6) if nonint else int(rng.integers(1, max(2, min(len(pairs), 6)) + 1))
     for (i, j) in pairs[:npair]:
         bi, bj = basis[i], basis[j]
         ri, rj = _raise_lower(bi, qs), _raise_lower(bj, qs)
